@@ -94,7 +94,7 @@ func c15R1(c *Ctx) {
 	retFalse := isReturnWith(0, IsConstBool(false))
 	c.MustCrossFrom(R, fn, "decline after output", isConsume, retFalse)
 	work := func(in ssa.Instruction) bool { return isGet(in) || isPlainCallTo(packInto)(in) || isConsume(in) }
-	c.AfterEdge(R, fn, "inadmissible record reaches the packer", OnFalse("admissibleRR", CallTo(admissible)), work)
+	c.AfterEdge(R, fn, "inadmissible record reaches the packer", OnFalse("admissibleRR", CallTo(x5FalseImplying(c, x5WirePkgRel, admissible)...)), work)
 	c.AfterEdge(R, fn, "unsafe OPT shape reaches the packer", OnFalse("selectOPT safe", ResultOf(1, selectOPT)), work)
 	c.MustCross(R, fn, "pool Get (OPT selected)", isGet, OnTrue("selectOPT safe", ResultOf(1, selectOPT)))
 	c.MustCross(R, fn, "pool Get (size probe)", isGet, OnCmp("Len()>packBufferSize", CallTo(lenM), token.GTR, IsConstInt(bufSize), false))
@@ -302,7 +302,7 @@ func c15R2(c *Ctx) {
 				ug, tr := c.unguarded(in, []Barrier{
 					OnCmp("Rcode<0", FieldIs(fRcode), token.LSS, IsConstInt(0), true),
 					OnCmp("Rcode>0xFFF", FieldIs(fRcode), token.GTR, IsConstInt(0xFFF), true),
-					OnFalse("admissibleRR", CallTo(admissible)),
+					OnFalse("admissibleRR", CallTo(x5FalseImplying(c, x5WirePkgRel, admissible)...)),
 					OnFalse("selectOPT safe", ResultOf(1, selectOPT)),
 					OnFalse("opt!=nil", ResultOf(0, selectOPT)),
 				}, TopLevel(fn))
